@@ -220,8 +220,8 @@ func TestC11(t *testing.T) {
 
 	var forChildren []caseC11
 	var firstEnc [][]byte
-	wantChildren := vf.N(1600, 100000)
-	r.Rapid(t, "in-process", vf.N(3000, 1200000), func(t *rapid.T) {
+	wantChildren := vf.N(3200, 100000)
+	r.Rapid(t, "in-process", vf.N(6000, 1200000), func(t *rapid.T) {
 		m := genC11(t)
 		plan := drawPlan(t, &m)
 		ops := rapid.SliceOfN(rapid.IntRange(0, 5), 0, 12).Draw(t, "ops")
@@ -251,7 +251,7 @@ func TestC11(t *testing.T) {
 			firstEnc = append(firstEnc, frame)
 		}
 	})
-	r.Rapid(t, "decoded", vf.N(2500, 1000000), func(t *rapid.T) {
+	r.Rapid(t, "decoded", vf.N(5000, 1000000), func(t *rapid.T) {
 		typ := rapid.SampledFrom([]uint8{1, 1, 1, 2, 3, 3, 4, 5, 6, 7, 8, 8, 9, 10, 11, 14, 15}).Draw(t, "type")
 		m := genSpecValid(t, typ)
 		st := drawStyle(t)
